@@ -22,8 +22,7 @@ import (
 )
 
 const lpPacketOverhead = 1 + 3
-const pitTokenOverhead = 1 + 1 + 6
-const congestionMarkOverhead = 3 + 1 + 8
+const fragmentOverhead = 1 + 3
 
 const (
 	FaceFlagLocalFields = 1 << iota
@@ -111,8 +110,11 @@ func (l *NDNLPLinkService) SetOptions(options NDNLPLinkServiceOptions) {
 	l.computeHeaderOverhead()
 }
 
+// computeHeaderOverhead computes the part of each frame of a fragmented packet that is
+// taken by the LpPacket and Fragment framing and by the fragmentation fields.
 func (l *NDNLPLinkService) computeHeaderOverhead() {
-	l.headerOverhead = lpPacketOverhead // LpPacket (Type + Length of up to 2^16)
+	l.headerOverhead = lpPacketOverhead  // LpPacket (Type + Length of up to 2^16)
+	l.headerOverhead += fragmentOverhead // Fragment (Type + Length of up to 2^16)
 
 	if l.options.IsFragmentationEnabled {
 		l.headerOverhead += 1 + 1 + 8 // Sequence
@@ -121,10 +123,13 @@ func (l *NDNLPLinkService) computeHeaderOverhead() {
 	if l.options.IsFragmentationEnabled {
 		l.headerOverhead += 1 + 1 + 2 + 1 + 1 + 2 // FragIndex/FragCount (Type + Length + up to 2^16 fragments)
 	}
+}
 
-	if l.options.IsIncomingFaceIndicationEnabled {
-		l.headerOverhead += 3 + 1 + 8 // IncomingFaceId
-	}
+// lpFrameSize returns the encoded size of an LpPacket whose header fields take
+// headerSize bytes and whose Fragment carries fragmentSize bytes.
+func lpFrameSize(headerSize int, fragmentSize int) int {
+	inner := headerSize + 1 + enc.TLNum(fragmentSize).EncodingLength() + fragmentSize
+	return 1 + enc.TLNum(inner).EncodingLength() + inner
 }
 
 // Run starts the face and associated goroutines
@@ -185,23 +190,47 @@ func sendPacket(l *NDNLPLinkService, out dispatch.OutPkt) {
 
 	now := time.Now()
 
-	effectiveMtu := l.transport.MTU() - l.headerOverhead
-	if pkt.PitToken != nil {
-		effectiveMtu -= pitTokenOverhead
+	// Congestion marking
+	congestionMark := pkt.CongestionMark // from upstream
+	if congestionMarking {
+		// GetSendQueueSize is expensive, so only check every 1/2 of the threshold
+		// and only if we can mark congestion for this particular packet
+		if l.congestionCheck > l.options.DefaultCongestionThresholdBytes {
+			if now.After(l.lastTimeCongestionMarked.Add(l.options.BaseCongestionMarkingInterval)) &&
+				l.transport.GetSendQueueSize() > l.options.DefaultCongestionThresholdBytes {
+				core.LogWarn(l, "Marking congestion")
+				congestionMark = utils.IdPtr[uint64](1) // ours
+				l.lastTimeCongestionMarked = now
+			}
+
+			l.congestionCheck = 0
+		}
+
+		l.congestionCheck += uint64(len(wire)) // approx
 	}
-	if pkt.CongestionMark != nil {
-		effectiveMtu -= congestionMarkOverhead
+
+	// Size of the header fields that are attached to every frame of this packet
+	headerSize := 0
+	if len(out.PitToken) > 0 {
+		headerSize += 1 + enc.TLNum(len(out.PitToken)).EncodingLength() + len(out.PitToken)
+	}
+	if l.options.IsIncomingFaceIndicationEnabled && out.InFace != nil {
+		headerSize += 3 + 1 + enc.Nat(*out.InFace).EncodingLength()
+	}
+	if congestionMark != nil {
+		headerSize += 3 + 1 + enc.Nat(*congestionMark).EncodingLength()
 	}
 
 	// Fragmentation
 	var fragments []*spec.LpPacket
-	if len(wire) > effectiveMtu {
+	if lpFrameSize(headerSize, len(wire)) > l.transport.MTU() {
 		if !l.options.IsFragmentationEnabled {
 			core.LogInfo(l, "Attempted to send frame over MTU on link without fragmentation - DROP")
 			return
 		}
 
 		// Split up fragment
+		effectiveMtu := l.transport.MTU() - l.headerOverhead - headerSize
 		nFragments := int((len(wire) + effectiveMtu - 1) / effectiveMtu)
 		fragments = make([]*spec.LpPacket, nFragments)
 		reader := enc.NewBufferReader(wire)
@@ -227,25 +256,6 @@ func sendPacket(l *NDNLPLinkService, out dispatch.OutPkt) {
 			fragment.Sequence = utils.IdPtr(l.nextSequence)
 			l.nextSequence++
 		}
-	}
-
-	// Congestion marking
-	congestionMark := pkt.CongestionMark // from upstream
-	if congestionMarking {
-		// GetSendQueueSize is expensive, so only check every 1/2 of the threshold
-		// and only if we can mark congestion for this particular packet
-		if l.congestionCheck > l.options.DefaultCongestionThresholdBytes {
-			if now.After(l.lastTimeCongestionMarked.Add(l.options.BaseCongestionMarkingInterval)) &&
-				l.transport.GetSendQueueSize() > l.options.DefaultCongestionThresholdBytes {
-				core.LogWarn(l, "Marking congestion")
-				congestionMark = utils.IdPtr[uint64](1) // ours
-				l.lastTimeCongestionMarked = now
-			}
-
-			l.congestionCheck = 0
-		}
-
-		l.congestionCheck += uint64(len(wire)) // approx
 	}
 
 	// Send fragment(s)
